@@ -134,7 +134,7 @@ func (fr *Frame) execCall(st *State, in ssa.Instruction, cc *ssa.CallCommon) *Va
 		// logging): no program memory changes; results are fresh unconstrained values. Assumption,
 		// listed in the evidence.
 		c.readonlyExt[shortFn(key)] = true
-		fr.callSiteClauses(st, in, nil, nil)
+		fr.callSiteClauses(st, in, nil, args)
 		fr.bumpAlloc(st)
 		r := resultVal(sig, fr.freshResults(st, sig, "ext"))
 		fr.callSiteAfter(st, in)
@@ -1581,7 +1581,34 @@ func (c *FnCtx) returnOrdinal(fn *ssa.Function, r *ssa.Return) int {
 func (fr *Frame) restoreCaptured(pre, st *State) {
 	c := fr.c
 	top := c.top
-	if top == nil || top.fn.Parent() == nil {
+	if top == nil {
+		return
+	}
+	// locals of the verified function that live on the heap only because function literals of this
+	// very function capture them, and that none of those literals assigns: a callee's havoc-all
+	// leaves them unchanged
+	if fr == top {
+		for _, b := range top.fn.Blocks {
+			for _, in := range b.Instrs {
+				a, ok := in.(*ssa.Alloc)
+				if !ok || !a.Heap || a.Comment == "" || !top.allocAt[a] || !capturedReadOnly(a) {
+					continue
+				}
+				pv := top.vals[a]
+				if pv == nil {
+					continue
+				}
+				func() {
+					defer func() { recover() }()
+					et := derefType(a.Type())
+					old := Heap{st: pre}.loadDeref(pv.X, et)
+					Heap{st: st, log: curLog}.storeDeref(pv.X, et, old)
+				}()
+				c.trusted["locals captured (and never assigned) by function literals of the verified function are not assigned by its callees"] = true
+			}
+		}
+	}
+	if top.fn.Parent() == nil {
 		return
 	}
 	for _, fv := range top.fn.FreeVars {
@@ -1624,4 +1651,48 @@ func (fr *Frame) restorePrivate(pre, st *State) {
 		}
 		c.trusted["private location (no other reference exists; unchanged by callees): "+pe.String()+" in "+shortFn(top.fn.RelString(nil))] = true
 	}
+}
+
+// capturedReadOnly: the heap-allocated local a is referenced only by loads, by stores of this
+// function into it, and by closures of this function that never store to it.
+func capturedReadOnly(a *ssa.Alloc) bool {
+	refs := a.Referrers()
+	if refs == nil {
+		return false
+	}
+	for _, r := range *refs {
+		switch x := r.(type) {
+		case *ssa.UnOp, *ssa.DebugRef:
+		case *ssa.Store:
+			if x.Val == ssa.Value(a) {
+				return false // the address itself is stored somewhere
+			}
+		case *ssa.MakeClosure:
+			fn, ok := x.Fn.(*ssa.Function)
+			if !ok {
+				return false
+			}
+			for i, bnd := range x.Bindings {
+				if bnd != ssa.Value(a) || i >= len(fn.FreeVars) {
+					continue
+				}
+				fv := fn.FreeVars[i]
+				if frefs := fv.Referrers(); frefs != nil {
+					for _, fr2 := range *frefs {
+						switch y := fr2.(type) {
+						case *ssa.UnOp, *ssa.DebugRef:
+						case *ssa.Store:
+							_ = y
+							return false
+						default:
+							return false // passed on (nested closure, call argument, address arithmetic)
+						}
+					}
+				}
+			}
+		default:
+			return false
+		}
+	}
+	return true
 }
